@@ -1,0 +1,358 @@
+//! Verification hooks (cargo feature `verif_hooks`, off by default).
+//!
+//! Add-only instrumentation used by the external runtime-monitoring harness:
+//!
+//! - [`Builder`]: a public wrapper around the crate-private circuit builder, so that sequences
+//!   of gate requests can be driven (and observed) without going through the language.
+//! - a per-thread event log of every `push_xor` / `push_and` request (including the recursive
+//!   requests issued by rewrite rules) and of every panic-record update, together with a
+//!   snapshot of the un-pruned builder state taken when `build` is called.
+//!
+//! Nothing in here changes the behaviour of compilation.
+
+use std::cell::{Cell, RefCell};
+
+use crate::{
+    circuit::{Circuit, CircuitBuilder, CircuitBuilderOptions, GateIndex, PanicReason},
+    token::MetaInfo,
+};
+
+/// The kind of a recorded gate request.
+#[derive(Debug, Clone, Copy, PartialEq, Eq)]
+pub enum ReqKind {
+    /// A `push_xor(x, y)` request.
+    Xor,
+    /// A `push_and(x, y)` request.
+    And,
+}
+
+/// A recorded event.
+#[derive(Debug, Clone, PartialEq, Eq)]
+pub enum Event {
+    /// A gate request with its operands and the wire that was handed back.
+    Req {
+        /// Kind of the request.
+        kind: ReqKind,
+        /// First operand (builder numbering).
+        x: GateIndex,
+        /// Second operand (builder numbering).
+        y: GateIndex,
+        /// Returned wire (builder numbering).
+        ret: GateIndex,
+        /// Nesting depth (0 = requested from outside the rewrite rules).
+        depth: u32,
+    },
+    /// A `push_panic_if(cond, ..)` call with the panic record before and after.
+    PanicIf {
+        /// The condition wire.
+        cond: GateIndex,
+        /// Numeric code of the reason (1 = overflow, 2 = div by zero, 3 = out of bounds).
+        reason: u32,
+        /// Location given to the call.
+        meta: MetaInfo,
+        /// The 161 wires of the panic record before the call.
+        before: Vec<GateIndex>,
+        /// The 161 wires of the panic record after the call.
+        after: Vec<GateIndex>,
+    },
+}
+
+/// Snapshot of the builder taken at the beginning of `build`.
+#[derive(Debug, Clone, Default)]
+pub struct Snapshot {
+    /// Number of bits per party.
+    pub input_gates: Vec<usize>,
+    /// Index of the first non-input wire in builder numbering (2 + number of input bits).
+    pub shift: usize,
+    /// The raw builder gates: `(is_and, x, y)` in builder numbering.
+    pub gates: Vec<(bool, GateIndex, GateIndex)>,
+    /// The 161 wires of the panic record (builder numbering).
+    pub panic_wires: Vec<GateIndex>,
+    /// The output wires requested (builder numbering).
+    pub outputs: Vec<GateIndex>,
+    /// All events recorded since tracing was switched on / the last snapshot.
+    pub events: Vec<Event>,
+}
+
+thread_local! {
+    static TRACING: Cell<bool> = const { Cell::new(false) };
+    static SKIP_ONCE: Cell<bool> = const { Cell::new(false) };
+    static DEPTH: Cell<u32> = const { Cell::new(0) };
+    static SKIP_PANIC_ONCE: Cell<bool> = const { Cell::new(false) };
+    static EVENTS: RefCell<Vec<Event>> = const { RefCell::new(Vec::new()) };
+    static SNAPSHOTS: RefCell<Vec<Snapshot>> = const { RefCell::new(Vec::new()) };
+}
+
+/// Switches tracing on or off for the current thread (clears the pending log).
+pub fn set_tracing(on: bool) {
+    TRACING.with(|t| t.set(on));
+    SKIP_ONCE.with(|t| t.set(false));
+    SKIP_PANIC_ONCE.with(|t| t.set(false));
+    DEPTH.with(|t| t.set(0));
+    EVENTS.with(|e| e.borrow_mut().clear());
+}
+
+/// Returns whether tracing is on for the current thread.
+pub fn tracing() -> bool {
+    TRACING.with(|t| t.get())
+}
+
+/// Takes all snapshots recorded by `build` calls on this thread.
+pub fn take_snapshots() -> Vec<Snapshot> {
+    SNAPSHOTS.with(|s| std::mem::take(&mut *s.borrow_mut()))
+}
+
+/// Takes the events recorded so far on this thread (without a snapshot).
+pub fn take_events() -> Vec<Event> {
+    EVENTS.with(|e| std::mem::take(&mut *e.borrow_mut()))
+}
+
+// Called as the first statement of an instrumented request. Returns true if the caller should
+// re-issue the request through the recording path.
+pub(crate) fn intercept() -> bool {
+    if !tracing() {
+        return false;
+    }
+    if SKIP_ONCE.with(|s| s.replace(false)) {
+        return false;
+    }
+    SKIP_ONCE.with(|s| s.set(true));
+    DEPTH.with(|d| d.set(d.get() + 1));
+    true
+}
+
+// Same protocol for `push_panic_if`.
+pub(crate) fn intercept_panic_if() -> bool {
+    if SKIP_PANIC_ONCE.with(|s| s.replace(false)) {
+        return false;
+    }
+    SKIP_PANIC_ONCE.with(|s| s.set(true));
+    true
+}
+
+pub(crate) fn record_req(kind: ReqKind, x: GateIndex, y: GateIndex, ret: GateIndex) {
+    let depth = DEPTH.with(|d| {
+        let v = d.get().saturating_sub(1);
+        d.set(v);
+        v
+    });
+    EVENTS.with(|e| {
+        e.borrow_mut().push(Event::Req {
+            kind,
+            x,
+            y,
+            ret,
+            depth,
+        })
+    });
+}
+
+pub(crate) fn record_event(ev: Event) {
+    if tracing() {
+        EVENTS.with(|e| e.borrow_mut().push(ev));
+    }
+}
+
+pub(crate) fn record_snapshot(mut snap: Snapshot) {
+    if tracing() {
+        snap.events = take_events();
+        SNAPSHOTS.with(|s| s.borrow_mut().push(snap));
+    }
+}
+
+/// Public wrapper around the crate-private circuit builder.
+#[derive(Debug, Clone)]
+pub struct Builder(CircuitBuilder);
+
+impl Builder {
+    /// Creates a builder for the given party sizes; `cache_gates` is the de-duplication switch.
+    pub fn new(input_gates: Vec<usize>, cache_gates: bool) -> Self {
+        Self(CircuitBuilder::new(
+            input_gates,
+            Default::default(),
+            CircuitBuilderOptions { cache_gates },
+        ))
+    }
+
+    /// Index of the first non-input, non-constant wire in builder numbering.
+    pub fn shift(&self) -> usize {
+        self.0.verif_shift()
+    }
+
+    /// The raw builder gates `(is_and, x, y)` in builder numbering.
+    pub fn raw_gates(&self) -> Vec<(bool, GateIndex, GateIndex)> {
+        self.0.verif_raw_gates()
+    }
+
+    /// The 161 wires of the current panic record.
+    pub fn panic_wires(&self) -> Vec<GateIndex> {
+        self.0.verif_panic_wires()
+    }
+
+    /// See `CircuitBuilder::push_xor`.
+    pub fn push_xor(&mut self, x: GateIndex, y: GateIndex) -> GateIndex {
+        self.0.push_xor(x, y)
+    }
+
+    /// See `CircuitBuilder::push_and`.
+    pub fn push_and(&mut self, x: GateIndex, y: GateIndex) -> GateIndex {
+        self.0.push_and(x, y)
+    }
+
+    /// See `CircuitBuilder::push_not`.
+    pub fn push_not(&mut self, x: GateIndex) -> GateIndex {
+        self.0.push_not(x)
+    }
+
+    /// See `CircuitBuilder::push_or`.
+    pub fn push_or(&mut self, x: GateIndex, y: GateIndex) -> GateIndex {
+        self.0.push_or(x, y)
+    }
+
+    /// See `CircuitBuilder::push_eq`.
+    pub fn push_eq(&mut self, x: GateIndex, y: GateIndex) -> GateIndex {
+        self.0.push_eq(x, y)
+    }
+
+    /// See `CircuitBuilder::push_eq_circuit`.
+    pub fn push_eq_circuit(&mut self, x: &[GateIndex], y: &[GateIndex]) -> GateIndex {
+        self.0.push_eq_circuit(x, y)
+    }
+
+    /// See `CircuitBuilder::push_mux` (`s ? x0 : x1`).
+    pub fn push_mux(&mut self, s: GateIndex, x0: GateIndex, x1: GateIndex) -> GateIndex {
+        self.0.push_mux(s, x0, x1)
+    }
+
+    /// See `CircuitBuilder::push_adder`.
+    pub fn push_adder(
+        &mut self,
+        x: GateIndex,
+        y: GateIndex,
+        carry: GateIndex,
+    ) -> (GateIndex, GateIndex) {
+        self.0.push_adder(x, y, carry)
+    }
+
+    /// See `CircuitBuilder::push_multiplier`.
+    pub fn push_multiplier(
+        &mut self,
+        x: GateIndex,
+        y: GateIndex,
+        z: GateIndex,
+        carry: GateIndex,
+    ) -> (GateIndex, GateIndex) {
+        self.0.push_multiplier(x, y, z, carry)
+    }
+
+    /// See `CircuitBuilder::push_addition_circuit`.
+    pub fn push_addition_circuit(
+        &mut self,
+        x: &[GateIndex],
+        y: &[GateIndex],
+    ) -> (Vec<GateIndex>, GateIndex, GateIndex) {
+        self.0.push_addition_circuit(x, y)
+    }
+
+    /// See `CircuitBuilder::push_negation_circuit`.
+    pub fn push_negation_circuit(&mut self, x: &[GateIndex]) -> Vec<GateIndex> {
+        self.0.push_negation_circuit(x)
+    }
+
+    /// See `CircuitBuilder::push_subtraction_circuit`.
+    pub fn push_subtraction_circuit(
+        &mut self,
+        x: &[GateIndex],
+        y: &[GateIndex],
+        is_signed: bool,
+    ) -> (Vec<GateIndex>, GateIndex) {
+        self.0.push_subtraction_circuit(x, y, is_signed)
+    }
+
+    /// See `CircuitBuilder::push_unsigned_division_circuit`.
+    pub fn push_unsigned_division_circuit(
+        &mut self,
+        x: &[GateIndex],
+        y: &[GateIndex],
+    ) -> (Vec<GateIndex>, Vec<GateIndex>) {
+        self.0.push_unsigned_division_circuit(x, y)
+    }
+
+    /// See `CircuitBuilder::push_signed_division_circuit`.
+    pub fn push_signed_division_circuit(
+        &mut self,
+        x: &mut [GateIndex],
+        y: &mut [GateIndex],
+    ) -> (Vec<GateIndex>, Vec<GateIndex>) {
+        self.0.push_signed_division_circuit(x, y)
+    }
+
+    /// See `CircuitBuilder::push_gt_circuit`.
+    pub fn push_gt_circuit(&mut self, bits: usize, x: &[GateIndex], y: &[GateIndex]) -> GateIndex {
+        self.0.push_gt_circuit(bits, x, y)
+    }
+
+    /// See `CircuitBuilder::push_comparator_circuit`; returns `(lt, gt)`.
+    pub fn push_comparator_circuit(
+        &mut self,
+        bits: usize,
+        x: &[GateIndex],
+        is_x_signed: bool,
+        y: &[GateIndex],
+        is_y_signed: bool,
+    ) -> (GateIndex, GateIndex) {
+        self.0
+            .push_comparator_circuit(bits, x, is_x_signed, y, is_y_signed)
+    }
+
+    /// See `CircuitBuilder::push_condswap`.
+    pub fn push_condswap(
+        &mut self,
+        s: GateIndex,
+        x: GateIndex,
+        y: GateIndex,
+    ) -> (GateIndex, GateIndex) {
+        self.0.push_condswap(s, x, y)
+    }
+
+    /// See `CircuitBuilder::push_sorter`; returns `(min, max)`.
+    pub fn push_sorter(
+        &mut self,
+        bits: usize,
+        x: &[GateIndex],
+        y: &[GateIndex],
+    ) -> (Vec<GateIndex>, Vec<GateIndex>) {
+        self.0.push_sorter(bits, x, y)
+    }
+
+    /// See `CircuitBuilder::push_bitonic_merger`.
+    pub fn push_bitonic_merger(
+        &mut self,
+        bits: usize,
+        ascending: bool,
+        bitonic: &mut [Vec<GateIndex>],
+    ) {
+        self.0.push_bitonic_merger(bits, ascending, bitonic)
+    }
+
+    /// See `CircuitBuilder::push_bitonic_sorter`.
+    pub fn push_bitonic_sorter(&mut self, bits: usize, input: &mut [Vec<GateIndex>]) {
+        self.0.push_bitonic_sorter(bits, input)
+    }
+
+    /// See `CircuitBuilder::push_panic_if`; `reason` is 1 (overflow), 2 (div by zero) or
+    /// anything else (out of bounds).
+    pub fn push_panic_if(&mut self, cond: GateIndex, reason: u32, meta: MetaInfo) {
+        let reason = match reason {
+            1 => PanicReason::Overflow,
+            2 => PanicReason::DivByZero,
+            _ => PanicReason::OutOfBounds,
+        };
+        self.0.push_panic_if(cond, reason, meta)
+    }
+
+    /// See `CircuitBuilder::build`.
+    pub fn build(self, output_gates: Vec<GateIndex>) -> Circuit {
+        self.0.build(output_gates)
+    }
+}
